@@ -108,7 +108,10 @@ func attGen(v eth2spec.DataVersion) Gen {
 			d := attData(a)
 			d.Slot = eth2p0.Slot(slot)
 			d.Target.Epoch = eth2p0.Epoch(slot / spe)
-			d.Source.Epoch = d.Target.Epoch - 1
+			d.Source.Epoch = 0
+			if d.Target.Epoch > 0 {
+				d.Source.Epoch = d.Target.Epoch - 1
+			}
 
 			return a
 		},
@@ -619,6 +622,76 @@ func SigningRootForkAt(ctx context.Context, cl eth2wrap.Client, name signing.Dom
 	if err != nil {
 		return [32]byte{}, err
 	}
+
+	return (&eth2p0.SigningData{ObjectRoot: root, Domain: d}).HashTreeRoot()
+}
+
+// ForkVersions returns every fork version of the beacon node's fork schedule, in schedule order.
+func ForkVersions(ctx context.Context, cl eth2wrap.Client) ([]eth2p0.Version, error) {
+	resp, err := cl.ForkSchedule(ctx, &eth2api.ForkScheduleOpts{})
+	if err != nil {
+		return nil, err
+	}
+	var out []eth2p0.Version
+	seen := map[eth2p0.Version]bool{}
+	for _, f := range resp.Data {
+		for _, v := range []eth2p0.Version{f.PreviousVersion, f.CurrentVersion} {
+			if !seen[v] {
+				seen[v] = true
+				out = append(out, v)
+			}
+		}
+	}
+
+	return out, nil
+}
+
+// VersionAt is the consensus-spec fork version active at an epoch: the current_version of the last
+// fork of the schedule whose activation epoch is <= epoch (the genesis version if there is none).
+func VersionAt(ctx context.Context, cl eth2wrap.Client, epoch eth2p0.Epoch) (eth2p0.Version, error) {
+	resp, err := cl.ForkSchedule(ctx, &eth2api.ForkScheduleOpts{})
+	if err != nil {
+		return eth2p0.Version{}, err
+	}
+	var v eth2p0.Version
+	for i, f := range resp.Data {
+		if i == 0 {
+			v = f.PreviousVersion
+		}
+		if f.Epoch <= epoch {
+			v = f.CurrentVersion
+		}
+	}
+
+	return v, nil
+}
+
+// SigningRootForkVersion wraps the object root with compute_domain(domain_type, version,
+// genesis_validators_root) computed here from the spec constants -- no Domain/GenesisDomain call.
+func SigningRootForkVersion(ctx context.Context, cl eth2wrap.Client, name signing.DomainName, root eth2p0.Root, version eth2p0.Version) ([32]byte, error) {
+	resp, err := cl.Spec(ctx, &eth2api.SpecOpts{})
+	if err != nil {
+		return [32]byte{}, err
+	}
+	dt, ok := resp.Data[string(name)].(eth2p0.DomainType)
+	if !ok {
+		return [32]byte{}, errors.New("domain type not in spec: " + string(name))
+	}
+	gen, err := cl.Genesis(ctx, &eth2api.GenesisOpts{})
+	if err != nil {
+		return [32]byte{}, err
+	}
+	gvr := gen.Data.GenesisValidatorsRoot
+	if name == signing.DomainApplicationBuilder {
+		gvr = eth2p0.Root{} // builder domain: compute_domain(DOMAIN_APPLICATION_BUILDER) with a zero validators root
+	}
+	fdr, err := (&eth2p0.ForkData{CurrentVersion: version, GenesisValidatorsRoot: gvr}).HashTreeRoot()
+	if err != nil {
+		return [32]byte{}, err
+	}
+	var d eth2p0.Domain
+	copy(d[:4], dt[:])
+	copy(d[4:], fdr[:28])
 
 	return (&eth2p0.SigningData{ObjectRoot: root, Domain: d}).HashTreeRoot()
 }
